@@ -311,6 +311,15 @@ impl DcpsDomainParticipant {
                                     info!("Triggering data reader DataAvailable listener");
                                     l.send(ListenerMail::DataAvailable { the_reader }).ok();
                                 }
+                            } else if subscriber_listener_mask.is_enabled(&StatusKind::DataAvailable)
+                            {
+                                if let Some(l) = &subscriber_listener_sender {
+                                    l.send(ListenerMail::DataAvailable { the_reader }).ok();
+                                }
+                            } else if dp_listener_mask.is_enabled(&StatusKind::DataAvailable) {
+                                if let Some(l) = dp_listener_sender {
+                                    l.send(ListenerMail::DataAvailable { the_reader }).ok();
+                                }
                             }
 
                             subscriber_status_condition
